@@ -475,3 +475,98 @@ Qed.
 End Basis.
 
 End RotAsm.
+
+(* ------------------------------------------------------------------ *)
+(* Examples over Qc: an s + p (2 primitives, 2 segments) + d basis, the 3-4-5 rotation and an improper rotation.
+   The transcendental closures are stand-ins (sqrt = exp = 1), which satisfy every hypothesis. *)
+From Coq Require Import ZArith QArith Qcanon.
+Section Examples.
+Let KQ : Fops Qc := exKQ.
+Let KQf : is_field KQ := QcK_field _ _ _ _ _ _.
+Let q (n : Z) (d : positive) : Qc := qc_of n d.
+Definition exS : shell Qc :=
+  mkShell Qc 0 (q 1 1) (q 0 1) (q (-1) 2) [q 5 4; q 1 3] [[q 1 2]; [q 2 3]] false [] [].
+Definition exbasis : list (shell Qc) := [exS; exP; exD].
+Definition expts : list (Qc * Qc * Qc) := [(q 1 3, q 1 2, q (-1) 4); (q (-2) 1, q 0 1, q 1 5)].
+
+Example rot_basis_ok_ex : rot_basis_ok KQ exbasis.
+Proof.
+  split.
+  - intros s [<-|[<-|[<-|[]]]]; repeat split; cbn; lia.
+  - intros sa sb Ha Hb a b Hia Hib.
+    destruct Ha as [<-|[<-|[<-|[]]]]; destruct Hb as [<-|[<-|[<-|[]]]];
+      cbn [exS exP exD s_exps In] in Hia, Hib;
+      repeat match goal with
+             | H : _ \/ _ |- _ => destruct H as [<-|H]
+             | H : False |- _ => destruct H
+             end;
+      intro H; apply (f_equal this) in H; vm_compute in H; discriminate H.
+Qed.
+
+Example ncont_nonzero_ex : ncont_nonzero KQ exbasis.
+Proof.
+  intros k m c Hk Hm Hc.
+  destruct k as [|[|[|k]]]; try (exfalso; cbn in Hk; lia); vm_compute in Hm, Hc;
+    destruct m as [|[|m]]; try (exfalso; lia);
+    destruct c as [|[|[|[|[|[|c]]]]]]; try (exfalso; lia);
+    intro H; apply (f_equal this) in H; vm_compute in H; discriminate H.
+Qed.
+
+(* the assembled law re-evaluated on the list-level model, every pair of functions of the basis, both rotations *)
+Definition asm_law_all (Mx : list (shell Qc) -> list (list Qc)) : bool :=
+  forallb (fun R =>
+    let S := Mx exbasis in let S' := Mx (rot_basis KQ R exbasis) in
+    let W := mk 3 (fun i => let si := sh_at KQ exbasis i in
+               mk (nseg si) (fun m => mk (ncd (s_l si)) (fun a => mk (ncd (s_l si)) (fun a' => wrot KQ R si m a a')))) in
+    let w i m a a' := nth a' (nth a (nth m (nth i W []) []) []) (f0 KQ) in
+    forallb (fun i => forallb (fun j =>
+      let si := sh_at KQ exbasis i in let sj := sh_at KQ exbasis j in
+      forallb (fun m => forallb (fun a => forallb (fun m' => forallb (fun b =>
+        Qeq_bool
+          (FNum.fsum KQ (mk (ncd (s_l si)) (fun a' => FNum.fsum KQ (mk (ncd (s_l sj)) (fun b' =>
+             fmul KQ (fmul KQ (w i m a a') (w j m' b b'))
+               (nth (gidx KQ exbasis j m' b') (nth (gidx KQ exbasis i m a') S' []) (f0 KQ)))))))
+          (nth (gidx KQ exbasis j m' b) (nth (gidx KQ exbasis i m a) S []) (f0 KQ)))
+        (seq 0 (ncd (s_l sj)))) (seq 0 (nseg sj))) (seq 0 (ncd (s_l si)))) (seq 0 (nseg si)))
+      (seq 0 3)) (seq 0 3)) [R345; Rimp].
+Example overlap_integral_law_computed : asm_law_all (fun b => overlap_integral KQ b None) = true.
+Proof. vm_compute. reflexivity. Qed.
+Example kinetic_integral_law_computed : asm_law_all (fun b => kinetic_integral KQ b None) = true.
+Proof. vm_compute. reflexivity. Qed.
+
+Definition eval_law_all_asm : bool :=
+  forallb (fun R =>
+    let E := evaluate_basis_model KQ exbasis expts None in
+    let E' := evaluate_basis_model KQ (rot_basis KQ R exbasis) (map (mapply KQ R) expts) None in
+    forallb (fun i => let si := sh_at KQ exbasis i in
+      forallb (fun m => forallb (fun a => forallb (fun p =>
+        Qeq_bool
+          (FNum.fsum KQ (mk (ncd (s_l si)) (fun a' =>
+             fmul KQ (wrot KQ R si m a a') (nth p (nth (gidx KQ exbasis i m a') E' []) (f0 KQ)))))
+          (nth p (nth (gidx KQ exbasis i m a) E []) (f0 KQ)))
+        (seq 0 2)) (seq 0 (ncd (s_l si)))) (seq 0 (nseg si))) (seq 0 3)) [R345; Rimp].
+Example evaluate_basis_law_computed : eval_law_all_asm = true.
+Proof. vm_compute. reflexivity. Qed.
+
+(* not vacuous: a d-d entry of the overlap matrix does change under the rotation *)
+Example overlap_integral_not_invariant :
+  Qeq_bool (nth (gidx KQ exbasis 2 0 1) (nth (gidx KQ exbasis 1 0 0) (overlap_integral KQ exbasis None) []) (f0 KQ))
+           (nth (gidx KQ exbasis 2 0 1) (nth (gidx KQ exbasis 1 0 0)
+                 (overlap_integral KQ (rot_basis KQ R345 exbasis) None) []) (f0 KQ)) = false.
+Proof. vm_compute. reflexivity. Qed.
+End Examples.
+
+Lemma asm_rotation_hypotheses_satisfiable :
+  exists (F : Type) (K : Fops F) (R1 R2 : @mat3 F) (bs : list (shell F)),
+    is_field K /\ (forall x y, fexp K (fadd K x y) = fmul K (fexp K x) (fexp K y)) /\ (forall x, fapx K x = x)
+    /\ fadd K (f1 K) (f1 K) <> f0 K /\ (forall c, dfnorm K c <> f0 K)
+    /\ orthogonal K R1 /\ orthogonal K R2 /\ rot_basis_ok K bs /\ ncont_nonzero K bs /\ length bs = 3%nat.
+Proof.
+  exists Qc, exKQ, R345, Rimp, exbasis.
+  split; [apply QcK_field|]. destruct KQ_hyps as (A & B & C & D).
+  split; [exact A|]. split; [exact B|]. split; [exact C|]. split; [exact D|].
+  split; [apply orthogonal_R345'|]. split.
+  { intros i j Hi Hj. destruct i as [|[|[|i]]]; try lia; destruct j as [|[|[|j]]]; try lia;
+      split; apply Qc_is_canon; vm_compute; reflexivity. }
+  split; [exact rot_basis_ok_ex|]. split; [exact ncont_nonzero_ex|reflexivity].
+Qed.
